@@ -88,6 +88,18 @@ if __name__ == "__main__":
             for name, a in variants:
                 texts.append((str(len(texts)), regcheck.hist_harness(s, a)))
                 meta.append((len(bases) - 1, name))
+    # a stored state whose norm is not 1 to rounding: a qubit turned by 2e-5 .. 8e-5 and measured (the collapse loses less
+    # than the 1e-9 that normalize tolerates, so the state is left as it is) -- the derived sums have to account for it alike
+    for n in (3, 4, 6):
+        for theta in (8e-5, 5e-5, 2e-5):
+            b = rng.randrange(n)
+            s = rng.randrange(1 << 30)
+            acts = [("new", n), ("apply", ("h", ((1 << n) - 1) & ~(1 << b))), ("apply", (rng.choice(["rx", "ry"]), theta, 1 << b)),
+                    ("measure", 1 << b), ("dump",), ("probs",), ("abs",)]
+            bases.append((s, acts, n))
+            for name, a in [("single", acts)] + [("k=%d" % k, with_threads(acts, k)) for k in ks]:
+                texts.append((str(len(texts)), regcheck.hist_harness(s, a)))
+                meta.append((len(bases) - 1, name))
     # tensor products in both operand orders and with either operand the wider one (0..5 (6) qubits each side)
     wmax = 5 if tier == "quick" else 6
     for a in range(0, wmax + 1):
